@@ -97,10 +97,8 @@ Proof.
             cbn [concat]. rewrite app_assoc. apply K. exact H'.
           - pinv H'. discriminate. }
         destruct (ev_input e) as [|x inp].
-        -- destruct (o_exact o).
-           ++ eapply Kecho; exact H.
-           ++ specialize (K (acc ++ []) t0 H). rewrite app_nil_r in K. exact K.
-        -- eapply Kecho. destruct (o_exact o); exact H.
+        -- specialize (K (acc ++ []) t0 H). rewrite app_nil_r in K. exact K.
+        -- eapply Kecho. exact H.
     + specialize (K (acc ++ []) t0 H). rewrite app_nil_r in K. exact K.
 Qed.
 
@@ -236,11 +234,11 @@ Proof. intros cfg t e H. eapply handler_only_failure; [apply ho_get_prompt|exact
 (* 3.  SendInput                                                           *)
 (* ====================================================================== *)
 
-(* the echo stage of a command: no read at all for an empty input matched fuzzily *)
+(* the echo stage of a command: no read at all for an empty input *)
 Definition echo_obs (o : op_opts) (cmd : bytes) (rb : bytes) : list obs :=
-  match cmd, o_exact o with
-  | [], false => []
-  | _, _ => [ORead (echo_cond o cmd) rb]
+  match cmd with
+  | [] => []
+  | _ => [ORead (echo_cond o cmd) rb]
   end.
 
 (* the shape of a successful SendInput and its result: the command (not redacted), its echo read,
@@ -285,20 +283,14 @@ Proof.
     - pinv H1. discriminate. }
   unfold until_echo in H. unfold echo_obs.
   destruct cmd as [|x cmd].
-  - destruct (o_exact o) eqn:Ex.
-    + apply Kecho in H. destruct H as [rb1 [t2 [-> [Hc H]]]]. apply K in H.
-      exists rb1. split; [right; exact Hc|].
-      destruct (o_eager o).
-      * destruct H as [-> ->]. auto.
-      * destruct H as [rb2 [-> [Hc2 ->]]]. exists rb2. auto.
-    + apply K in H. exists []. split; [left; reflexivity|].
-      destruct (o_eager o).
-      * destruct H as [-> ->]. auto.
-      * destruct H as [rb2 [-> [Hc2 ->]]]. exists rb2. auto.
+  - apply K in H. exists []. split; [left; reflexivity|].
+    destruct (o_eager o).
+    + destruct H as [-> ->]. auto.
+    + destruct H as [rb2 [-> [Hc2 ->]]]. exists rb2. auto.
   - assert (H' : ctrace cfg (Until (echo_cond o (x :: cmd)) (fun _ => Write (c_ret cfg) false
         (if o_eager o then Ret (process_out cfg [] (o_strip o))
          else Until (prompt_cond cfg o) (fun nb => Ret (process_out cfg nb (o_strip o))) Fail)) Fail) t0 (inl r))
-      by (destruct (o_exact o); exact H).
+      by exact H.
     clear H. apply Kecho in H'. destruct H' as [rb1 [t2 [-> [Hc H]]]]. apply K in H.
     exists rb1. split; [right; exact Hc|].
     destruct (o_eager o).
